@@ -1,12 +1,123 @@
 (* C16 — PreVote + CheckQuorum: a node that cannot win does not disrupt the cluster.
-   Only pinned statements; proofs live in M/RaftProofs.v.
-   Full property (for reference): besides the two per-step statements below, (a) a
-   pre-candidate raises its term only when told of a higher one or after winning the
-   pre-vote, and (b) the cluster-level window statement (a lock-step majority with
-   leases keeps its leader and terms whatever the minority does).  (a) and (b) are not
-   yet proved; the proved part is named _partial in MANIFEST/evidence. *)
-From RV Require Import Base.Prelude Base.IdSet M.Msg M.RaftLog M.Raft M.RaftProofs.
+   Only pinned statements and non-vacuity Examples; proofs live in M/RaftProofs.v (the
+   first two) and M/RaftProofsC16.v.  The model M/Raft.v is taken as given.  Every
+   statement is over ALL states [r : raft] and ALL messages; the hypothesis
+   [f ... = Ok ...] only excludes panics.
+
+   PROVED (single node, per step / per tick / over arbitrary input sequences).
+   0. C16_prevote_req_no_change, C16_lease_ignores_vote_requests (as before).
+   1. The pre-vote campaign.  C16_become_pre_candidate: only role (PreCandidate),
+      leader id (none) and the vote tally (emptied) change; term, vote, log, outbox,
+      timers untouched.  C16_campaign_pre (exact) / C16_campaign_pre_pending (readable):
+      unless the node's own vote already is a quorum (single voter / empty
+      configuration: then campaign_real runs on top), term and vote are unchanged, the
+      role is PreCandidate, the tally holds exactly the own grant, and the outbox grows
+      by exactly one MsgRequestPreVote per OTHER voter (incoming or outgoing half:
+      C16_prevote_recipients), each carrying term r_term+1, the node's last
+      (index, term), its commit (index, term), reject = false, empty context — nothing
+      else is queued and nothing else changes (the result is given as a record
+      equation).  C16_hup_pre_vote: with r_pre_vote = true a MsgHup either does nothing
+      or runs exactly campaign_pre.  C16_precandidate_tick: a PreCandidate's tick
+      either counts up or (timeout, promotable) clears the timer and runs hup: nothing,
+      or campaign_pre again; term, vote and role unchanged.
+   2. "A node that fails to gather a pre-vote quorum does not raise its term unless a
+      peer tells it of a higher one".  C16_step_term_cases: complete case analysis of the
+      term over one step for EVERY role and message: unchanged | raised by exactly 1 by
+      the node itself in one of three situations ([raises]: MsgHup on a promotable
+      non-leader without pre-vote or whose own vote is a quorum; MsgTimeoutNow on a
+      promotable follower (the transfer exception); MsgRequestPreVoteResponse on a
+      PreCandidate whose tally after recording it is Won) | a higher message term is
+      adopted, which happens for every message type EXCEPT MsgRequestPreVote, a
+      MsgRequestPreVoteResponse with reject = false ([exempt]) and a (pre-)vote
+      request dropped by the lease ([lease_drop]); on top of an adopted term a
+      MsgHup / MsgTimeoutNow may campaign (+1).  C16_precandidate_term_cases: the same
+      read off for a PreCandidate, with case (b) spelled out: the state after the
+      winning response is campaign_real false on the state with the vote recorded
+      followed by maybe_commit_by_vote; C16_campaign_real_facts says what campaign_real
+      does (term+1, vote for self, Candidate, or Leader when the own vote is a quorum).
+      Trace form C16_quiet_run_term: with r_pre_vote = true, over ANY sequence of
+      delivered messages and ticks each of which is [quiet] in the state it meets (no
+      adoptable higher term, no MsgTimeoutNow, no pre-vote response completing a quorum
+      of grants, the node is not its own quorum), the term never changes, whatever roles
+      the node passes through (PreCandidate -> Follower on a lost pre-vote or a leader's
+      message -> PreCandidate again on timeout ...).  C16_tick_term: a tick raises the
+      term only by a real campaign (no pre-vote, or own vote a quorum).
+   3. A pre-vote request on the receiver.  C16_prevote_req_receiver: the four paths,
+      exactly (lease: dropped, r' = r | lower term: explicit rejection at the
+      receiver's term, nothing else | granted: ONE response carrying the request's
+      term and nothing else: no vote recorded, election timer NOT reset, leader id and
+      role untouched | rejected: one response at the receiver's term with its commit
+      info, then maybe_commit_by_vote).  C16_prevote_req_no_trace: at most one message
+      is queued; every field except outbox and log is untouched (and the log too for a
+      Leader and on a grant; a rejecting Follower may advance its commit index from the
+      request), EXCEPT:
+      REFUTED C16_prevote_req_role_refuted: "a pre-vote request never changes role /
+      leader id / election timer of the receiver" is FALSE for a Candidate or
+      PreCandidate receiver: rejecting the request it still fast-forwards its commit
+      index from it (maybe_commit_by_vote) and, if the newly committed range holds an
+      unapplied membership change, abandons its campaign (Follower of the same term,
+      timers reset via reset()).  Concrete witness pinned.  Term and vote are still
+      unchanged (clause 0).
+   4. The lease and the leader.  C16_lease_trace: inside the lease any number of
+      higher-term non-transfer (pre-)vote requests leaves the node IDENTICAL (nothing
+      queued).  C16_leader_vote_request: a (pre-)vote request with m_term <= r_term never
+      changes a Leader's term, role, leader id or log: lower-term MsgRequestVote is
+      ignored (r' = r), lower-term MsgRequestPreVote is rejected explicitly (one
+      response at the leader's term), a same-term request gets exactly one response.
+   5. C16_prevote_reject_higher_term: a MsgRequestPreVoteResponse with reject = true and
+      a higher term makes the receiver (PreCandidate or not) exactly
+      become_follower r (m_term m) INVALID_ID: Follower of that term, vote and leader
+      cleared, nothing queued.
+   6. Window theorem, single leader.  C16_leader_step: no message without an adoptable
+      higher term changes a Leader's term; its role changes only on a local
+      MsgCheckQuorum that finds no quorum recently active.  C16_leader_tick: a tick
+      never changes the term; the leader steps down only at an election-timeout
+      boundary with check_quorum on and no quorum recently active.  C16_leader_window:
+      over ANY input sequence in which every boundary tick sees a quorum recently
+      active and no message carries an adoptable higher term, the leader keeps role,
+      term and leader id.
+   7. Window theorem, single majority member (lease_maintained of DESIGN.md and its
+      use).  C16_follower_leader_msg: a MsgHeartbeat / MsgAppend of the current term on
+      a Follower clears the election timer and records the sender as leader; besides
+      that only log and outbox change.  C16_follower_lease_window: a Follower with
+      check_quorum and a known leader whose inputs are [on_schedule] — ticks that keep
+      the timer below election_timeout (boundary ticks included: e + 1 < timeout is
+      required of every tick), heartbeats/appends of its term from its leader, and
+      ANY higher-term non-transfer MsgRequestVote / MsgRequestPreVote at any point —
+      stays Follower with the same term, vote and leader and inside the lease
+      throughout (invariant [lease_inv]); needs election_timeout <= randomized
+      timeout (what Config::validate + reset guarantee; hypothesis here).
+
+   NOT PROVED (listed honestly).
+   * The cluster-level clause ("while a leader and a majority exchange heartbeats on
+     schedule no behaviour of the remaining nodes makes that leader step down or any
+     member of the majority change its term") as ONE multi-node theorem.  Missing:
+     (i) a network/cluster model tying the nodes together; (ii) the invariant "no
+     adoptable term above the leader's T is in flight towards the majority", which
+     needs quorum intersection: a PreCandidate can only win (case 2b) with grants from
+     a quorum, which intersects the majority, whose members are in the lease and drop
+     the request (clause 0/4) — the per-node halves of that argument are proved here,
+     the composition is not; (iii) "heartbeats on schedule => check_quorum_active at
+     each boundary" is not proved (it needs the followers' responses to arrive, i.e.
+     the cluster model); leader_window takes it as a hypothesis on the states met.
+     The follower half (election_elapsed < election_timeout throughout) IS proved:
+     clause 7.  Note also what the per-node theorems show the
+     clause must except: a node outside the lease that is at a higher REAL term
+     (e.g. a restarted node that campaigned without pre-vote, or a MsgAppendResponse
+     from a node with a higher term) does make the leader adopt that term
+     (step_term_cases, third disjunct) — pre-vote only prevents such terms from
+     arising on nodes that run pre-vote.
+   * That [quiet] inputs are what a partitioned node actually receives (needs the
+     cluster model).  The hypotheses of quiet_run / leader_window are stated on the
+     states met along the run, not derived from a schedule. *)
+From RV Require Import Base.Prelude Base.IdSet M.Progress M.Quorum M.ConfChange M.Msg M.RaftLog M.Raft
+  M.RaftProofs M.RaftProofsC16.
+From RecordUpdate Require Import RecordSet.
+Import RecordSetNotations.
 Local Open Scope N_scope.
+
+(* ================================================================== *)
+(* 0. the two statements pinned earlier *)
 
 (* Handling a pre-vote request never changes the receiver's term or vote: every
    state, every message (any term, any sender, any log position), every path
@@ -31,3 +142,624 @@ Theorem C16_lease_ignores_vote_requests :
     step r m = Ok (r, E_OK).
 Proof. exact lease_ignores_vote_requests. Qed.
 Print Assumptions C16_lease_ignores_vote_requests.
+
+(* ================================================================== *)
+(* the definitions used below, unfolded *)
+
+(* the vote result of the node's configuration for a votes map *)
+Theorem C16_def_tally : forall r v,
+  tally r v = Quorum.tracker_vote_result (incoming (t_conf (r_prs r))) (outgoing (t_conf (r_prs r))) v.
+Proof. exact def_tally. Qed.
+Print Assumptions C16_def_tally.
+
+(* the node's own grant alone is a quorum (single voter, or no voters at all) *)
+Theorem C16_def_self_wins : forall r, self_wins r <-> tally r [(r_id r, true)] = VoteWon.
+Proof. exact def_self_wins. Qed.
+Print Assumptions C16_def_self_wins.
+
+(* the tally after recording the response [m] (first answer of a peer counts) *)
+Theorem C16_def_prevote_tally : forall r m,
+  prevote_tally r m =
+  tally r (Quorum.record_vote (t_votes (r_prs r)) (m_from m) (negb (m_reject m))).
+Proof. exact def_prevote_tally. Qed.
+Print Assumptions C16_def_prevote_tally.
+
+(* the lease test of step: a non-transfer (pre-)vote request while a leader is known
+   and election_elapsed < election_timeout, with check_quorum *)
+Theorem C16_def_lease_drop : forall r m,
+  lease_drop r m =
+  ((m_type m =? MsgRequestVote) || (m_type m =? MsgRequestPreVote))
+  && negb (list_eqb (m_context m) CAMPAIGN_TRANSFER)
+  && (r_check_quorum r && negb (r_leader_id r =? INVALID_ID)
+      && (r_election_elapsed r <? r_election_timeout r)).
+Proof. exact def_lease_drop. Qed.
+Print Assumptions C16_def_lease_drop.
+
+(* the two kinds of message whose higher term is never adopted *)
+Theorem C16_def_exempt : forall m,
+  exempt m = (m_type m =? MsgRequestPreVote)
+             || ((m_type m =? MsgRequestPreVoteResponse) && negb (m_reject m)).
+Proof. exact def_exempt. Qed.
+Print Assumptions C16_def_exempt.
+
+Theorem C16_def_cfg_of : forall r,
+  cfg_of r = (r_id r, r_pre_vote r, r_check_quorum r, r_election_timeout r, r_heartbeat_timeout r).
+Proof. exact def_cfg_of. Qed.
+Print Assumptions C16_def_cfg_of.
+
+Theorem C16_def_check_quorum_active : forall r,
+  check_quorum_active r = snd (quorum_recently_active (r_prs r) (r_id r)).
+Proof. exact def_check_quorum_active. Qed.
+Print Assumptions C16_def_check_quorum_active.
+
+Theorem C16_def_pre_candidate_of : forall r,
+  pre_candidate_of r =
+  r <| r_state := PreCandidate |> <| r_prs := (r_prs r) <| t_votes := [(r_id r, true)] |> |>
+    <| r_leader_id := INVALID_ID |>.
+Proof. exact def_pre_candidate_of. Qed.
+Print Assumptions C16_def_pre_candidate_of.
+
+Theorem C16_def_with_votes : forall r v,
+  with_votes r v = r <| r_prs := (r_prs r) <| t_votes := v |> |>.
+Proof. exact def_with_votes. Qed.
+Print Assumptions C16_def_with_votes.
+
+Theorem C16_def_others : forall self ids,
+  others self ids = filter (fun id => negb (id =? self)) ids.
+Proof. exact def_others. Qed.
+Print Assumptions C16_def_others.
+
+Theorem C16_def_push : forall r x, push r x = r <| r_msgs := r_msgs r ++ [x] |>.
+Proof. exact def_push. Qed.
+Print Assumptions C16_def_push.
+
+(* the (pre-)vote request queued for peer [id] *)
+Theorem C16_def_vote_req : forall self l prio vm t c ct tr lt id,
+  vote_req self l prio vm t c ct tr lt id =
+  let m := msg_default <| m_type := vm |> <| m_to := id |> <| m_from := self |> <| m_term := t |>
+             <| m_index := last_index l |> <| m_log_term := lt |>
+             <| m_commit := c |> <| m_commit_term := ct |>
+             <| m_context := if tr then CAMPAIGN_TRANSFER else [] |> <| m_priority := prio |> in
+  if (0 <? prio)%Z then m <| m_deprecated_priority := Z.to_N prio |> else m.
+Proof. exact def_vote_req. Qed.
+Print Assumptions C16_def_vote_req.
+
+(* the response to a (pre-)vote request *)
+Theorem C16_def_vote_resp : forall r m rt reject t ci,
+  vote_resp r m rt reject t ci =
+  msg_default <| m_type := rt |> <| m_to := m_from m |> <| m_from := r_id r |>
+              <| m_term := t |> <| m_reject := reject |>
+              <| m_commit := fst ci |> <| m_commit_term := snd ci |>.
+Proof. exact def_vote_resp. Qed.
+Print Assumptions C16_def_vote_resp.
+
+Theorem C16_def_resp_type : forall m,
+  resp_type m = if m_type m =? MsgRequestVote then MsgRequestVoteResponse
+                else MsgRequestPreVoteResponse.
+Proof. exact def_resp_type. Qed.
+Print Assumptions C16_def_resp_type.
+
+(* the grant condition of step *)
+Theorem C16_def_grants : forall r m,
+  grants r m =
+  (utd <- is_up_to_date (r_log r) (m_index m) (m_log_term m) ;;
+   Ok (((r_vote r =? m_from m)
+        || ((r_vote r =? INVALID_ID) && (r_leader_id r =? INVALID_ID))
+        || ((m_type m =? MsgRequestPreVote) && (r_term r <? m_term m)))
+       && utd
+       && ((last_index (r_log r) <? m_index m) || (r_priority r <=? get_priority m)%Z))).
+Proof. exact def_grants. Qed.
+Print Assumptions C16_def_grants.
+
+Theorem C16_def_only_msgs_log : forall r r',
+  only_msgs_log r r' <-> r' = r <| r_msgs := r_msgs r' |> <| r_log := r_log r' |>.
+Proof. exact def_only_msgs_log. Qed.
+Print Assumptions C16_def_only_msgs_log.
+
+Theorem C16_def_lease_request : forall r m,
+  lease_request r m <->
+  (m_type m = MsgRequestVote \/ m_type m = MsgRequestPreVote) /\
+  r_term r < m_term m /\ list_eqb (m_context m) CAMPAIGN_TRANSFER = false.
+Proof. exact def_lease_request. Qed.
+Print Assumptions C16_def_lease_request.
+
+(* inputs and runs: [input] has the two constructors IStep (m : msg) and ITick *)
+Theorem C16_def_apply_input : forall r i,
+  apply_input r i = match i with
+                    | IStep m => x <- step r m ;; Ok (fst x)
+                    | ITick => x <- tick r ;; Ok (fst x)
+                    end.
+Proof. exact def_apply_input. Qed.
+Print Assumptions C16_def_apply_input.
+
+Theorem C16_def_run : forall r ins,
+  run r ins = match ins with
+              | [] => Ok r
+              | i :: rest => r1 <- apply_input r i ;; run r1 rest
+              end.
+Proof. exact def_run. Qed.
+Print Assumptions C16_def_run.
+
+Theorem C16_def_quiet : forall r i,
+  quiet r i <->
+  match i with
+  | ITick => ~ self_wins r
+  | IStep m =>
+      (m_term m <= r_term r \/ exempt m = true \/ lease_drop r m = true) /\
+      m_type m <> MsgTimeoutNow /\
+      (m_type m = MsgHup -> ~ self_wins r) /\
+      (m_type m = MsgRequestPreVoteResponse -> r_state r = PreCandidate ->
+       prevote_tally r m <> VoteWon)
+  end.
+Proof. exact def_quiet. Qed.
+Print Assumptions C16_def_quiet.
+
+Theorem C16_def_quiet_run : forall r ins,
+  quiet_run r ins <->
+  match ins with
+  | [] => True
+  | i :: rest => quiet r i /\ forall r1, apply_input r i = Ok r1 -> quiet_run r1 rest
+  end.
+Proof. exact def_quiet_run. Qed.
+Print Assumptions C16_def_quiet_run.
+
+Theorem C16_def_leader_safe : forall r i,
+  leader_safe r i <->
+  match i with
+  | ITick => r_election_timeout r <= r_election_elapsed r + 1 -> r_check_quorum r = true ->
+             check_quorum_active r = true
+  | IStep m => (m_term m <= r_term r \/ exempt m = true \/ lease_drop r m = true) /\
+               (m_type m = MsgCheckQuorum -> check_quorum_active r = true)
+  end.
+Proof. exact def_leader_safe. Qed.
+Print Assumptions C16_def_leader_safe.
+
+Theorem C16_def_leader_safe_run : forall r ins,
+  leader_safe_run r ins <->
+  match ins with
+  | [] => True
+  | i :: rest => leader_safe r i /\ forall r1, apply_input r i = Ok r1 -> leader_safe_run r1 rest
+  end.
+Proof. exact def_leader_safe_run. Qed.
+Print Assumptions C16_def_leader_safe_run.
+
+(* ================================================================== *)
+(* 1. the pre-vote campaign *)
+
+Theorem C16_become_pre_candidate :
+  forall r r', become_pre_candidate r = Ok r' ->
+    r_state r <> Leader /\
+    r_term r' = r_term r /\ r_vote r' = r_vote r /\ r_state r' = PreCandidate /\
+    r_leader_id r' = INVALID_ID /\ t_votes (r_prs r') = [] /\
+    r_msgs r' = r_msgs r /\ r_log r' = r_log r /\
+    r_election_elapsed r' = r_election_elapsed r /\
+    r_randomized_election_timeout r' = r_randomized_election_timeout r /\
+    r' = r <| r_state := PreCandidate |> <| r_prs := (r_prs r) <| t_votes := [] |> |>
+           <| r_leader_id := INVALID_ID |>.
+Proof. exact become_pre_candidate_spec. Qed.
+Print Assumptions C16_become_pre_candidate.
+
+(* exact: either the own vote is a quorum and the real campaign runs on the
+   pre-candidate state, or the result is the pre-candidate state with one request per
+   other voter appended to the outbox *)
+Theorem C16_campaign_pre :
+  forall r r', campaign_pre r = Ok r' ->
+    r_state r <> Leader /\
+    ((tally r [(r_id r, true)] = VoteWon /\ campaign_real false (pre_candidate_of r) = Ok r') \/
+     (tally r [(r_id r, true)] = VotePending /\
+      exists ci new,
+        commit_info (r_log r) = Ok ci /\
+        r' = (pre_candidate_of r) <| r_msgs := r_msgs r ++ new |> /\
+        map m_to new = others (r_id r) (voter_ids (conf_of r)) /\
+        forall x, In x new -> exists lt, last_term (r_log r) = Ok lt /\
+          x = vote_req (r_id r) (r_log r) (r_priority r) MsgRequestPreVote (r_term r + 1)
+                       (fst ci) (snd ci) false lt (m_to x))).
+Proof. exact campaign_pre_spec. Qed.
+Print Assumptions C16_campaign_pre.
+
+Theorem C16_campaign_pre_pending :
+  forall r r', campaign_pre r = Ok r' -> tally r [(r_id r, true)] <> VoteWon ->
+    r_term r' = r_term r /\ r_vote r' = r_vote r /\ r_state r' = PreCandidate /\
+    r_leader_id r' = INVALID_ID /\ t_votes (r_prs r') = [(r_id r, true)] /\
+    r_log r' = r_log r /\ r_election_elapsed r' = r_election_elapsed r /\
+    exists new, r_msgs r' = r_msgs r ++ new /\
+      r' = (pre_candidate_of r) <| r_msgs := r_msgs r ++ new |> /\
+      map m_to new = others (r_id r) (voter_ids (conf_of r)) /\
+      forall x, In x new ->
+        m_type x = MsgRequestPreVote /\ m_term x = r_term r + 1 /\ m_from x = r_id r /\
+        m_index x = last_index (r_log r) /\ last_term (r_log r) = Ok (m_log_term x) /\
+        commit_info (r_log r) = Ok (m_commit x, m_commit_term x) /\
+        m_reject x = false /\ m_entries x = [] /\ m_context x = [] /\
+        m_priority x = r_priority r.
+Proof. exact campaign_pre_pending. Qed.
+Print Assumptions C16_campaign_pre_pending.
+
+(* the recipients: every voter of either half except the node itself *)
+Theorem C16_prevote_recipients :
+  forall c self id,
+    In id (others self (voter_ids c)) <-> id <> self /\ voters_contains c id = true.
+Proof. exact others_voters. Qed.
+Print Assumptions C16_prevote_recipients.
+
+(* hup (MsgHup, election timeout): nothing, or the campaign selected by the flags *)
+Theorem C16_hup_cases :
+  forall r tl r', hup r tl = Ok r' ->
+    r' = r \/
+    (r_state r <> Leader /\ r_promotable r = true /\
+     if tl then campaign_real true r = Ok r'
+     else if r_pre_vote r then campaign_pre r = Ok r' else campaign_real false r = Ok r').
+Proof. exact hup_cases. Qed.
+Print Assumptions C16_hup_cases.
+
+(* what the real campaign does (reached from a pre-vote only after winning it) *)
+Theorem C16_campaign_real_facts :
+  forall tr r r', campaign_real tr r = Ok r' ->
+    r_term r' = r_term r + 1 /\ cfg_of r' = cfg_of r /\ r_vote r' = r_id r /\ r_state r <> Leader /\
+    ((tally r [(r_id r, true)] = VoteWon /\ r_state r' = Leader /\ r_leader_id r' = r_id r) \/
+     (tally r [(r_id r, true)] = VotePending /\ r_state r' = Candidate /\
+      r_leader_id r' = INVALID_ID)).
+Proof. exact campaign_real_facts. Qed.
+Print Assumptions C16_campaign_real_facts.
+
+(* a pre-candidate's tick *)
+Theorem C16_precandidate_tick :
+  forall r r' b,
+    r_state r = PreCandidate -> r_pre_vote r = true -> ~ self_wins r ->
+    tick r = Ok (r', b) ->
+    r_term r' = r_term r /\ r_vote r' = r_vote r /\ r_state r' = PreCandidate /\
+    ((b = false /\ r' = r <| r_election_elapsed := r_election_elapsed r + 1 |>) \/
+     (b = true /\ r_randomized_election_timeout r <= r_election_elapsed r + 1 /\
+      r_promotable r = true /\
+      (r' = r <| r_election_elapsed := 0 |> \/
+       campaign_pre (r <| r_election_elapsed := 0 |>) = Ok r'))).
+Proof. exact precandidate_tick. Qed.
+Print Assumptions C16_precandidate_tick.
+
+(* ================================================================== *)
+(* 2. when the term changes *)
+
+(* the three ways a step raises the term by one on its own *)
+Theorem C16_def_raises : forall r m,
+  raises r m <->
+  (m_type m = MsgHup /\ r_state r <> Leader /\ r_promotable r = true /\
+   (r_pre_vote r = false \/ self_wins r)) \/
+  (m_type m = MsgTimeoutNow /\ r_state r = Follower /\ r_promotable r = true) \/
+  (m_type m = MsgRequestPreVoteResponse /\ r_state r = PreCandidate /\
+   prevote_tally r m = VoteWon).
+Proof. exact def_raises. Qed.
+Print Assumptions C16_def_raises.
+
+Theorem C16_step_term_cases :
+  forall r m r' c, step r m = Ok (r', c) ->
+    cfg_of r' = cfg_of r /\
+    (r_term r' = r_term r \/
+     (r_term r' = r_term r + 1 /\ raises r m /\
+      (m_term m = 0 \/ m_term m = r_term r \/
+       (r_term r < m_term m /\ lease_drop r m = false /\ exempt m = true))) \/
+     (r_term r < m_term m /\ lease_drop r m = false /\ exempt m = false /\
+      (r_term r' = m_term m \/
+       (r_term r' = m_term m + 1 /\ (m_type m = MsgHup \/ m_type m = MsgTimeoutNow))))).
+Proof. exact step_term_cases. Qed.
+Print Assumptions C16_step_term_cases.
+
+Theorem C16_precandidate_term_cases :
+  forall r m r' c,
+    r_state r = PreCandidate -> step r m = Ok (r', c) ->
+    (* unchanged *)
+    r_term r' = r_term r \/
+    (* (a) a higher term is adopted: any message type except MsgRequestPreVote and a
+       granted MsgRequestPreVoteResponse, unless dropped by the lease *)
+    (r_term r < m_term m /\ lease_drop r m = false /\ exempt m = false /\
+     (r_term r' = m_term m \/
+      (r_term r' = m_term m + 1 /\ (m_type m = MsgHup \/ m_type m = MsgTimeoutNow)))) \/
+    (* (b) this response completes a quorum of grants: the real campaign runs *)
+    (m_type m = MsgRequestPreVoteResponse /\
+     (m_term m = 0 \/ m_term m = r_term r \/ (r_term r < m_term m /\ m_reject m = false)) /\
+     prevote_tally r m = VoteWon /\ r_term r' = r_term r + 1 /\
+     exists r1,
+       campaign_real false (with_votes r (Quorum.record_vote (t_votes (r_prs r)) (m_from m)
+                                            (negb (m_reject m)))) = Ok r1 /\
+       maybe_commit_by_vote r1 m = Ok r') \/
+    (* (c) a local MsgHup: pre-vote again (term unchanged, first disjunct) unless pre-vote
+       is off or the own vote is a quorum *)
+    (m_type m = MsgHup /\ (m_term m = 0 \/ m_term m = r_term r) /\ r_promotable r = true /\
+     (r_pre_vote r = false \/ self_wins r) /\ r_term r' = r_term r + 1).
+Proof. exact precandidate_term_cases. Qed.
+Print Assumptions C16_precandidate_term_cases.
+
+Theorem C16_tick_term :
+  forall r r' b, tick r = Ok (r', b) ->
+    cfg_of r' = cfg_of r /\
+    (r_term r' = r_term r \/
+     (r_term r' = r_term r + 1 /\ r_state r <> Leader /\ r_promotable r = true /\
+      r_randomized_election_timeout r <= r_election_elapsed r + 1 /\
+      (r_pre_vote r = false \/ self_wins r))).
+Proof. exact tick_term. Qed.
+Print Assumptions C16_tick_term.
+
+Theorem C16_quiet_input_term :
+  forall r i r',
+    r_pre_vote r = true -> quiet r i -> apply_input r i = Ok r' ->
+    r_term r' = r_term r /\ cfg_of r' = cfg_of r.
+Proof. exact quiet_input_term. Qed.
+Print Assumptions C16_quiet_input_term.
+
+(* trace form: any sequence of messages and ticks, any roles in between *)
+Theorem C16_quiet_run_term :
+  forall ins r r',
+    r_pre_vote r = true -> quiet_run r ins -> run r ins = Ok r' ->
+    r_term r' = r_term r /\ cfg_of r' = cfg_of r.
+Proof. exact quiet_run_term. Qed.
+Print Assumptions C16_quiet_run_term.
+
+(* ================================================================== *)
+(* 3. the receiver of a pre-vote request *)
+
+Theorem C16_prevote_req_receiver :
+  forall r m r' c,
+    m_type m = MsgRequestPreVote -> step r m = Ok (r', c) ->
+    c = E_OK /\
+    ((* inside the lease: dropped *)
+     (r_term r < m_term m /\ lease_drop r m = true /\ r' = r) \/
+     (* lower term: explicit rejection at the receiver's term, nothing else *)
+     (m_term m <> 0 /\ m_term m < r_term r /\
+      r' = push r (vote_resp r m MsgRequestPreVoteResponse true (r_term r) (0, 0))) \/
+     (* granted: one response carrying the request's term, nothing else *)
+     ((m_term m = 0 \/ m_term m = r_term r \/ (r_term r < m_term m /\ lease_drop r m = false)) /\
+      grants r m = Ok true /\
+      r' = push r (vote_resp r m MsgRequestPreVoteResponse false (m_term m) (0, 0))) \/
+     (* rejected: one response at the receiver's term with its commit info, then the
+        commit fast-forward from the request *)
+     ((m_term m = 0 \/ m_term m = r_term r \/ (r_term r < m_term m /\ lease_drop r m = false)) /\
+      grants r m = Ok false /\
+      exists ci, commit_info (r_log r) = Ok ci /\
+        maybe_commit_by_vote (push r (vote_resp r m MsgRequestPreVoteResponse true (r_term r) ci)) m
+        = Ok r')).
+Proof. exact prevote_req_receiver. Qed.
+Print Assumptions C16_prevote_req_receiver.
+
+(* what maybe_commit_by_vote can do: only the log changes, or a (Pre)Candidate steps
+   down at its own term *)
+Theorem C16_maybe_commit_by_vote_cases :
+  forall r m r', maybe_commit_by_vote r m = Ok r' ->
+    r' = r <| r_log := r_log r' |> \/
+    ((r_state r = Candidate \/ r_state r = PreCandidate) /\
+     exists l', become_follower (r <| r_log := l' |>) (r_term r) INVALID_ID = Ok r').
+Proof. exact maybe_commit_by_vote_cases. Qed.
+Print Assumptions C16_maybe_commit_by_vote_cases.
+
+Theorem C16_prevote_req_no_trace :
+  forall r m r' c,
+    m_type m = MsgRequestPreVote -> step r m = Ok (r', c) ->
+    (exists new, r_msgs r' = r_msgs r ++ new /\ (length new <= 1)%nat /\
+       forall x, In x new -> m_type x = MsgRequestPreVoteResponse /\ m_to x = m_from m /\
+                             m_from x = r_id r /\
+                             (m_reject x = false -> m_term x = m_term m /\ grants r m = Ok true) /\
+                             (m_reject x = true -> m_term x = r_term r)) /\
+    (only_msgs_log r r' /\ (r_state r = Leader \/ grants r m = Ok true -> r_log r' = r_log r) \/
+     ((r_state r = Candidate \/ r_state r = PreCandidate) /\ grants r m = Ok false /\
+      r_state r' = Follower /\ r_term r' = r_term r /\ r_vote r' = r_vote r /\
+      r_leader_id r' = INVALID_ID /\ r_election_elapsed r' = 0 /\ cfg_of r' = cfg_of r)).
+Proof. exact prevote_req_no_trace. Qed.
+Print Assumptions C16_prevote_req_no_trace.
+
+(* REFUTED: a pre-vote request CAN change role and timers of the receiver: a
+   Candidate that rejects it but learns from it that a membership change it has not
+   applied is committed abandons its campaign *)
+Theorem C16_prevote_req_role_refuted :
+  exists r m r' c x,
+    m_type m = MsgRequestPreVote /\ step r m = Ok (r', c) /\
+    r_state r = Candidate /\ r_state r' = Follower /\
+    r_term r' = r_term r /\ r_vote r' = r_vote r /\
+    r_msgs r' = [x] /\ m_reject x = true /\
+    committed (r_log r) = 1 /\ committed (r_log r') = 2 /\
+    r_randomized_election_timeout r' <> r_randomized_election_timeout r.
+Proof. exact prevote_req_role_refuted. Qed.
+Print Assumptions C16_prevote_req_role_refuted.
+
+(* ================================================================== *)
+(* 4. the lease and the leader *)
+
+Theorem C16_lease_trace :
+  forall ms r,
+    r_check_quorum r = true -> r_leader_id r <> INVALID_ID ->
+    r_election_elapsed r < r_election_timeout r ->
+    Forall (lease_request r) ms ->
+    run r (map IStep ms) = Ok r.
+Proof. exact lease_trace. Qed.
+Print Assumptions C16_lease_trace.
+
+Theorem C16_leader_vote_request :
+  forall r m r' c,
+    r_state r = Leader ->
+    (m_type m = MsgRequestVote \/ m_type m = MsgRequestPreVote) ->
+    m_term m <= r_term r -> step r m = Ok (r', c) ->
+    r_term r' = r_term r /\ r_state r' = Leader /\ r_leader_id r' = r_leader_id r /\
+    r_log r' = r_log r /\ c = E_OK /\
+    ((m_term m <> 0 /\ m_term m < r_term r /\
+      if m_type m =? MsgRequestVote then r' = r
+      else r' = push r (vote_resp r m MsgRequestPreVoteResponse true (r_term r) (0, 0))) \/
+     ((m_term m = 0 \/ m_term m = r_term r) /\
+      ((grants r m = Ok true /\
+        r' = if m_type m =? MsgRequestVote
+             then (push r (vote_resp r m (resp_type m) false (m_term m) (0, 0)))
+                    <| r_election_elapsed := 0 |> <| r_vote := m_from m |>
+             else push r (vote_resp r m (resp_type m) false (m_term m) (0, 0))) \/
+       (grants r m = Ok false /\ exists ci, commit_info (r_log r) = Ok ci /\
+        r' = push r (vote_resp r m (resp_type m) true (r_term r) ci))))).
+Proof. exact leader_vote_request. Qed.
+Print Assumptions C16_leader_vote_request.
+
+(* ================================================================== *)
+(* 5. a rejection from a higher term *)
+
+Theorem C16_prevote_reject_higher_term :
+  forall r m r' c,
+    m_type m = MsgRequestPreVoteResponse -> m_reject m = true -> r_term r < m_term m ->
+    step r m = Ok (r', c) ->
+    c = E_OK /\ become_follower r (m_term m) INVALID_ID = Ok r' /\
+    r_term r' = m_term m /\ r_state r' = Follower /\ r_vote r' = INVALID_ID /\
+    r_leader_id r' = INVALID_ID /\ r_msgs r' = r_msgs r /\ r_election_elapsed r' = 0.
+Proof. exact prevote_reject_higher_term. Qed.
+Print Assumptions C16_prevote_reject_higher_term.
+
+(* ================================================================== *)
+(* 6. the leader's window *)
+
+Theorem C16_leader_step :
+  forall r m r' c,
+    r_state r = Leader -> step r m = Ok (r', c) ->
+    (m_term m <= r_term r \/ exempt m = true \/ lease_drop r m = true) ->
+    r_term r' = r_term r /\ cfg_of r' = cfg_of r /\
+    ((r_state r' = Leader /\ r_leader_id r' = r_leader_id r) \/
+     (m_type m = MsgCheckQuorum /\ check_quorum_active r = false /\
+      r_state r' = Follower /\ r_leader_id r' = INVALID_ID)).
+Proof. exact leader_step. Qed.
+Print Assumptions C16_leader_step.
+
+Theorem C16_leader_tick :
+  forall r r' b,
+    r_state r = Leader -> tick r = Ok (r', b) ->
+    r_term r' = r_term r /\ cfg_of r' = cfg_of r /\
+    ((r_state r' = Leader /\ r_leader_id r' = r_leader_id r) \/
+     (r_election_timeout r <= r_election_elapsed r + 1 /\ r_check_quorum r = true /\
+      check_quorum_active r = false /\ r_state r' = Follower /\ r_leader_id r' = INVALID_ID)).
+Proof. exact leader_tick. Qed.
+Print Assumptions C16_leader_tick.
+
+Theorem C16_leader_window :
+  forall ins r r',
+    r_state r = Leader -> leader_safe_run r ins -> run r ins = Ok r' ->
+    r_state r' = Leader /\ r_term r' = r_term r /\ r_leader_id r' = r_leader_id r /\
+    cfg_of r' = cfg_of r.
+Proof. exact leader_window. Qed.
+Print Assumptions C16_leader_window.
+
+(* ================================================================== *)
+(* non-vacuity: three voters 1 2 3, pre_vote and check_quorum on, election timeout 10.
+   xs_follower: node 3, follower of leader 1 in term 2; xs_leader: node 1, leader of
+   term 2 that has heard from node 2. *)
+
+(* 1: node 3's pre-vote campaign: two requests of term 3, own term and vote unchanged *)
+Example C16_campaign_example :
+  exists r' x1 x2,
+    campaign_pre xs_follower = Ok r' /\ tally xs_follower [(3, true)] = VotePending /\
+    r_state r' = PreCandidate /\ r_term r' = 2 /\ r_vote r' = 0 /\ r_msgs r' = [x1; x2] /\
+    m_to x1 = 1 /\ m_to x2 = 2 /\ m_term x1 = 3 /\ m_term x2 = 3 /\
+    m_type x1 = MsgRequestPreVote /\ m_index x1 = 3 /\ m_log_term x1 = 1.
+Proof. exact xs_campaign. Qed.
+Print Assumptions C16_campaign_example.
+
+(* 2: eighteen quiet inputs (time out, pre-campaign, both peers reject => Follower,
+   twelve ticks => pre-campaign again, another rejection): hypotheses of
+   C16_quiet_run_term hold, and the run does not panic *)
+Example C16_quiet_run_example : quiet_run xs_follower xs_quiet_inputs.
+Proof. exact xs_quiet_run. Qed.
+Print Assumptions C16_quiet_run_example.
+
+Example C16_quiet_run_result :
+  exists r', run xs_follower xs_quiet_inputs = Ok r' /\
+    r_term r' = 2 /\ r_vote r' = 0 /\ r_state r' = PreCandidate.
+Proof. exact xs_quiet_result. Qed.
+Print Assumptions C16_quiet_run_result.
+
+(* 2b: a granted response completing the quorum: Candidate of term 3 *)
+Example C16_prevote_won_example :
+  run xs_follower [IStep xs_hup] = Ok xs_precandidate /\
+  r_state xs_precandidate = PreCandidate /\ r_term xs_precandidate = 2 /\
+  prevote_tally xs_precandidate (xs_prevote_resp 1 3 false) = VoteWon /\
+  exists r'' c, step xs_precandidate (xs_prevote_resp 1 3 false) = Ok (r'', c) /\
+    r_state r'' = Candidate /\ r_term r'' = 3 /\ r_vote r'' = 3.
+Proof. exact xs_prevote_won. Qed.
+Print Assumptions C16_prevote_won_example.
+
+(* 0/3/4: the lease drops the request; once it has run out the pre-vote is granted,
+   leaving term, vote, timer and leader id alone *)
+Example C16_lease_example :
+  step xs_follower (xs_prevote_req 2 3 3 3 1 3 1) = Ok (xs_follower, E_OK) /\
+  lease_request xs_follower (xs_prevote_req 2 3 3 3 1 3 1) /\
+  exists r' x, step (xs_follower <| r_election_elapsed := 10 |>) (xs_prevote_req 2 3 3 3 1 3 1)
+               = Ok (r', E_OK) /\
+    r_msgs r' = [x] /\ m_reject x = false /\ m_term x = 3 /\ r_term r' = 2 /\ r_vote r' = 0 /\
+    r_election_elapsed r' = 10 /\ r_leader_id r' = 1.
+Proof. exact xs_lease. Qed.
+Print Assumptions C16_lease_example.
+
+(* 6: the leader over two election-timeout boundaries with a heartbeat response from
+   node 2 in between and (pre-)vote traffic from node 3: hypotheses of
+   C16_leader_window hold; without the response it steps down at the second boundary *)
+Example C16_leader_window_example : leader_safe_run xs_leader xs_leader_inputs.
+Proof. exact xs_leader_safe_run. Qed.
+Print Assumptions C16_leader_window_example.
+
+Example C16_leader_window_result :
+  exists r', run xs_leader xs_leader_inputs = Ok r' /\ r_state r' = Leader /\ r_term r' = 2.
+Proof. exact xs_leader_result. Qed.
+Print Assumptions C16_leader_window_result.
+
+Example C16_leader_stepdown_example :
+  exists r', run xs_leader (repeat ITick 20) = Ok r' /\ r_state r' = Follower /\ r_term r' = 2.
+Proof. exact xs_leader_stepdown. Qed.
+Print Assumptions C16_leader_stepdown_example.
+
+
+(* ================================================================== *)
+(* 7. a majority member inside the lease *)
+
+Theorem C16_def_on_schedule : forall t l et e ins,
+  on_schedule t l et e ins <->
+  match ins with
+  | [] => True
+  | ITick :: rest => e + 1 < et /\ on_schedule t l et (e + 1) rest
+  | IStep m :: rest =>
+      ((m_type m = MsgHeartbeat \/ m_type m = MsgAppend) /\ m_term m = t /\ m_from m = l /\
+       on_schedule t l et 0 rest) \/
+      ((m_type m = MsgRequestVote \/ m_type m = MsgRequestPreVote) /\ t < m_term m /\
+       list_eqb (m_context m) CAMPAIGN_TRANSFER = false /\ on_schedule t l et e rest)
+  end.
+Proof. exact def_on_schedule. Qed.
+Print Assumptions C16_def_on_schedule.
+
+Theorem C16_def_lease_inv : forall r0 r,
+  lease_inv r0 r <->
+  r_state r = Follower /\ r_term r = r_term r0 /\ r_vote r = r_vote r0 /\
+  r_leader_id r = r_leader_id r0 /\ r_check_quorum r = true /\
+  r_election_timeout r = r_election_timeout r0 /\
+  r_randomized_election_timeout r = r_randomized_election_timeout r0 /\
+  r_election_elapsed r < r_election_timeout r.
+Proof. exact def_lease_inv. Qed.
+Print Assumptions C16_def_lease_inv.
+
+Theorem C16_follower_leader_msg :
+  forall r m r' c,
+    r_state r = Follower -> (m_type m = MsgHeartbeat \/ m_type m = MsgAppend) ->
+    m_term m = r_term r -> step r m = Ok (r', c) ->
+    only_msgs_log (r <| r_election_elapsed := 0 |> <| r_leader_id := m_from m |>) r'.
+Proof. exact follower_leader_msg. Qed.
+Print Assumptions C16_follower_leader_msg.
+
+Theorem C16_tick_waits :
+  forall r, r_state r <> Leader -> r_election_elapsed r + 1 < r_randomized_election_timeout r ->
+    tick r = Ok (r <| r_election_elapsed := r_election_elapsed r + 1 |>, false).
+Proof. exact tick_waits. Qed.
+Print Assumptions C16_tick_waits.
+
+Theorem C16_follower_lease_window :
+  forall ins r0 r r',
+    r_leader_id r0 <> INVALID_ID ->
+    r_election_timeout r0 <= r_randomized_election_timeout r0 ->
+    lease_inv r0 r ->
+    on_schedule (r_term r0) (r_leader_id r0) (r_election_timeout r0) (r_election_elapsed r) ins ->
+    run r ins = Ok r' -> lease_inv r0 r'.
+Proof. exact follower_lease_window. Qed.
+Print Assumptions C16_follower_lease_window.
+
+(* 7: node 3: nine ticks, a pre-vote request of term 3, a heartbeat of its leader, a vote
+   request of term 5, nine more ticks: on schedule, and the run does not panic *)
+Example C16_on_schedule_example :
+  lease_inv xs_follower xs_follower /\
+  on_schedule (r_term xs_follower) (r_leader_id xs_follower) (r_election_timeout xs_follower)
+              (r_election_elapsed xs_follower) xs_schedule /\
+  exists r', run xs_follower xs_schedule = Ok r' /\ r_election_elapsed r' = 9 /\ r_term r' = 2.
+Proof. exact xs_on_schedule. Qed.
+Print Assumptions C16_on_schedule_example.
